@@ -6,6 +6,7 @@ import subprocess
 from concurrent.futures import ThreadPoolExecutor
 
 import common as C
+import precprobe
 
 ASSUMPTIONS = [
     "the matcher is abstract in the model: that a parser built for (dialect, all_columns) does not depend on which other "
@@ -46,6 +47,11 @@ def alphabet():
     for fn in FNS:
         A.append(call(fn, "select f(null) from", calls="normal_op", null={"Z": {"$i": "9"}}))
         A.append(call(fn, "select f(null) frum t", calls="custom", all_columns="*"))
+    # one call, several blocks (DELIMITER): the options of the call must hold for every block of it
+    for fn in FNS:
+        A.append(call(fn, "delimiter $$\nselect f(null) $$\nselect sum(a), g(null, 1) from t $$\nselect h(2) $$\n", calls="normal_op", null={"D": {"$i": "4"}}))
+        A.append(call(fn, "select k(1);\ndelimiter //\nselect sum(b) from u //\nselect f(null), sum(c) from v //\ndelimiter ;\nselect g(null)", calls="custom"))
+    A.append(call("parse", "delimiter //\nselect sum(a) from t //\nselect sum(b), f(null) from u //\nselect sum(c) from w //\n", fmap={"sum": "total", "f": "g"}))
     A.append(call("parse", "select -inf"))
     A.append(call("parse", "select a from t", fmap={"select": "pick"}, calls="normal_op", null={"$i": "7"}))
     A.append({"fn": "format", "tree": {"select": {"value": {"add": ["a", {"$i": "1"}]}}, "from": "order"}})
@@ -66,6 +72,9 @@ def probes():
         P.append(("bracket:" + fn, call(fn, "select [a] from t")))
         P.append(("normal:" + fn, call(fn, "select f(null, 1) from t", calls="normal_op")))
         P.append(("reject:" + fn, call(fn, "select a from t where")))
+        # the whole operator table (every ordered pair of levels unparenthesised): a parser whose operator order
+        # depends on which parsers were built before shows here
+        P.append(("operators:" + fn, call(fn, ";\n".join(precprobe.statements()))))
     P.append(("null-x:parse", call("parse", "select null, f(null) from t", null={"X": {"$i": "1"}})))
     P.append(("fmap:parse", call("parse", "select sum(a) from t", fmap={"sum": "plus"})))
     P.append(("format", {"fn": "format", "tree": {"select": {"value": {"mul": [{"add": ["a", "b"]}, "c"]}}, "from": "select"}}))
@@ -128,13 +137,59 @@ def run(ctx, scale=1):
 
     def one(h):
         kind, calls = h
-        order = list(range(len(P)))
+        # the (long) operator-table probes follow the histories that build parsers in a particular order and the
+        # single calls; the other histories get the short probes
+        order = [i for i in range(len(P)) if kind in ("creation-order", "len1") or not P[i][0].startswith("operators:")]
         import hashlib
         import random
         r = random.Random(int(hashlib.sha1(json.dumps(calls, sort_keys=True).encode()).hexdigest()[:8], 16))
         r.shuffle(order)
         outs = run_history(calls + [P[i][1] for i in order])
         return [(P[i][0], C.cdump(o)) for i, o in zip(order, outs[len(calls):])], order
+
+    # ---- structure: the grammar graph a (dialect, all_columns) parser is built as must not depend on which parsers
+    #      were built before it (the theorem's assumption about the abstract matcher).  Compared as multisets of node
+    #      signatures: alone in a fresh interpreter / after each other parser / after all the others.
+    def sig_call(k):
+        return {"fn": "graphsig", "entry": k[0], "all_columns": k[1]}
+
+    fresh_sig = dict(zip(keys, pmap(lambda k: run_history([sig_call(k)])[0].get("ok"), keys)))
+    orders = [([a], b) for a, b in pairs] + [([x for x in keys if x != b], b) for b in keys]
+    sigs = pmap(lambda ob: run_history([mk(a) for a in ob[0]] + [sig_call(ob[1])])[-1].get("ok"), orders)
+    for (before, b), sg in zip(orders, sigs):
+        rep.count("graph_signature", "after-%d" % len(before))
+        rep.case("graphsig:" + json.dumps([before, b]))
+        if sg == fresh_sig[b] or sg is None or fresh_sig[b] is None:
+            if sg is None or fresh_sig[b] is None:
+                raise C.InfraError("graph signature not available for %r" % (b,))
+            continue
+        added = sorted(k for k in sg if sg.get(k, 0) > fresh_sig[b].get(k, 0))
+        removed = sorted(k for k in fresh_sig[b] if fresh_sig[b].get(k, 0) > sg.get(k, 0))
+        # a failing input: the new terminals tried as operators / keywords in a few places
+        words = []
+        for sgn in added:
+            parts = sgn.split("|")
+            if len(parts) > 2 and parts[2] and parts[2] not in words:
+                words.append(parts[2])
+        found = None
+        for w in words[:12]:
+            for tpl in ("select a {w} b from t", "select a from t where a {w} 1", "select {w} a from t", "select a from t {w}", "select a {w} from t", "{w} select 1"):
+                pc = call(b[0], tpl.format(w=w), **({"all_columns": b[1]} if b[1] else {}))
+                alone = C.cdump(run_history([pc])[0])
+                after = C.cdump(run_history([mk(a) for a in before] + [pc])[-1])
+                if alone != after:
+                    found = (pc, alone, after)
+                    break
+            if found:
+                break
+        if found:
+            pc, alone, after = found
+            rep.finding("history-dependent:grammar", "after building %s, %s returns %s instead of %s" % (
+                json.dumps(before), json.dumps(pc, sort_keys=True)[:160], after[:160], alone[:160]),
+                {"kind": "history-call", "history": [mk(a) for a in before], "call": pc}, sub=b[0])
+        else:
+            rep.tie_break("structure", "grammar graph of %s depends on creation order" % (b,),
+                          {"built_before": before, "added_nodes": added[:20], "removed_nodes": removed[:20]})
 
     results = pmap(one, histories)
     for (kind, calls), (res, order) in zip(histories, results):
@@ -157,6 +212,12 @@ def search(ctx):
 
 
 def replay(ctx, p):
+    if p.get("kind") == "history-call":
+        after = run_history(p["history"] + [p["call"]])[-1]
+        alone = run_history([p["call"]])[0]
+        print(C.cdump(after))
+        print(C.cdump(alone))
+        return C.cdump(after) != C.cdump(alone)
     P = dict(probes())
     order = p.get("probe_order") or [p["probe"]]
     outs = run_history(p["history"] + [P[n] for n in order])
